@@ -29,7 +29,30 @@ Inductive case :=
 | CK (pairs : list (Z * Z))
   (* GroupSignGenerator: threshold, (id, share scalar) in arrival order, observed (add, generated) per
      call, and the scalar of the recovered signature (0 when nothing was recovered) *)
-| CGen (thr : nat) (msgs : list (Z * Z)) (obs : list (bool * bool)) (recovered : bool) (s : Z).
+| CGen (thr : nat) (msgs : list (Z * Z)) (obs : list (bool * bool)) (recovered : bool) (s : Z)
+  (* base.Rand.RandomPerm(n, k) = out, where js_i = r.Deri(i).Modulo(n-i)+i *)
+| CPerm (n k : nat) (js out : list nat)
+  (* group_node_info.go: member with id x, dealers (id, coefficients); [arrivals]: the dealer index of
+     every handleSharePiece call (pieces produced by the dealers' own genSharePiece); observed return
+     codes; whether the member completed and its signing key *)
+| CNode (x : Z) (ds : list (Z * list Z)) (arrivals : list nat) (rcs : list Z) (done : bool) (sk : Z).
+
+Fixpoint natlist_eqb (a b : list nat) : bool :=
+  match a, b with
+  | [], [] => true
+  | x :: a', y :: b' => Nat.eqb x y && natlist_eqb a' b'
+  | _, _ => false
+  end.
+
+Fixpoint node_run (n : nat) (x : Z) (ds : list (Z * list Z)) (nd : @node Z) (arrivals : list nat)
+  : @node Z * list Z :=
+  match arrivals with
+  | [] => (nd, [])
+  | d :: rest =>
+      let '(id, sh, pub) := piece_for (zq r) x (nth d ds (0, [])) in
+      let '(nd', rc) := node_handle (zq r) Z.eqb (fun z => z mod r =? 0) (seq 0 n) (seq 0 n) nd id (sh mod r) pub in
+      let '(ndf, l) := node_run n x ds nd' rest in (ndf, rc :: l)
+  end.
 
 Fixpoint gen_run (g : @gen Z) (msgs : list (Z * Z)) : @gen Z * list (bool * bool) :=
   match msgs with
@@ -56,6 +79,11 @@ Definition check (c : case) : bool :=
       && (group_secret (zq r) dealers mod r =? gsk)
       && forallb (fun sel => recover_sel (zq r) sel ids keys mod r =? gsk) sels
   | CK pairs => forallb (fun p => (group_k (fst p) =? snd p) && (group_k_float (fst p) =? snd p)) pairs
+  | CPerm n k js out => natlist_eqb (random_perm n k js) out
+  | CNode x ds arrivals rcs done sk =>
+      let n := length ds in
+      let '(nd, l) := node_run n x ds (node_new (zq r) n) arrivals in
+      zlist_eqb l rcs && Bool.eqb (n_done nd) done && (if done then n_sk nd mod r =? sk else true)
   | CGen thr msgs obs rec s =>
       let '(g, l) := gen_run (gen_new thr) msgs in
       obs_eqb l obs &&
